@@ -325,6 +325,13 @@ print("property holds on this case"); sys.exit(0)
 '''
 
 
+def _same_api(a, b):
+    try:
+        return a._gen_c_decl({}) == b._gen_c_decl({}) and a._gen_c_api() == b._gen_c_api()
+    except Exception:  # noqa
+        return False
+
+
 def real_types(tr):
     """the catalogue's REAL classes: the dependency closure (by identity, through _get_inner_types / _depends_on)
     against sort_classes; two distinct classes that end up with one name are what the by-name bookkeeping of
@@ -358,7 +365,10 @@ def real_types(tr):
             msg = f"a class is emitted twice: {names}"
         else:
             for c in need:
-                k = sum(1 for r in res if r is c)
+                # two class objects for one type expression (e.g. String[:] written with and without an explicit
+                # axis order) carry one name and one C API: they are one class for the generated source
+                twins = [x for x in need if x.__name__ == c.__name__ and (x is c or _same_api(x, c))]
+                k = sum(1 for r in res if any(r is x for x in twins))
                 if k != 1:
                     msg = f"class {c.__name__} (one of {len(need)} distinct classes in the closure) is emitted {k} times; emitted: {names}"
                     break
@@ -394,7 +404,12 @@ while st:
     st += list(getattr(c, "_depends_on", []))
 need = [c for c in clos if hasattr(c, "_gen_c_api")]
 res = sort_classes([cls])
-bad = [c.__name__ for c in need if sum(1 for r in res if r is c) != 1]
+def same_api(a, b):
+    try:
+        return a._gen_c_decl(dict()) == b._gen_c_decl(dict()) and a._gen_c_api() == b._gen_c_api()
+    except Exception:
+        return False
+bad = [c.__name__ for c in need if sum(1 for r in res if any(r is x for x in need if x.__name__ == c.__name__ and (x is c or same_api(x, c)))) != 1]
 if bad:
     print("VIOLATED: classes of the closure not emitted exactly once:", bad, "emitted:", [c.__name__ for c in res]); sys.exit(1)
 try:
